@@ -109,7 +109,7 @@ def resolveDesc : List (SN τ) → List DN → List Tok → Option Bytes
     | some d =>
       match lookup hd (dataKids kids) with
       | some (.container _ _ ck) => resolveDesc ck d.kids tl
-      | some (.leaf ..) => some (d.vals.headD [])
+      | some (.leaf ..) => d.vals.head?      -- (after the repair) a node without a value has none to compare
       | _ => none
 
 /-- decimal digits of a number, as `%d` writes them -/
